@@ -135,3 +135,256 @@ Proof.
   - destruct IH as [w [E [F [H L]]]]. exists (c :: w). cbn [app forallb length]. rewrite W, F, <- E, L. repeat split. exact H.
   - exists []. cbn [ws_head]. rewrite W. repeat split.
 Qed.
+
+(* ---- general facts about the evaluator (any grammar) ---- *)
+Section General.
+Variable g : grammar. Variable ws : option nat.
+Notation ev' := (ev g ws).
+
+Definition skipf (f : nat) (at_ : atom) (la : bool) (s : str) (pos : nat) : pres :=
+  match at_, ws with
+  | NonAtomic, Some w => ev' f Atomic la (PStar (PRef w)) s pos
+  | _, _ => Some (Some (s, pos, []))
+  end.
+Lemma ev_seq f at_ la a b s pos : ev' (S f) at_ la (PSeq a b) s pos =
+  match ev' f at_ la a s pos with
+  | Some (Some (s1, p1, t1)) =>
+      match skipf f at_ la s1 p1 with
+      | Some (Some (s2, p2, _)) =>
+          match ev' f at_ la b s2 p2 with
+          | Some (Some (s3, p3, t3)) => Some (Some (s3, p3, t1 ++ t3))
+          | x => x
+          end
+      | x => x
+      end
+  | x => x
+  end.
+Proof. reflexivity. Qed.
+Lemma ev_plus f at_ la a s pos : ev' (S f) at_ la (PPlus a) s pos =
+  match ev' f at_ la a s pos with
+  | Some (Some (s1, p1, t1)) =>
+      match skipf f at_ la s1 p1 with
+      | Some (Some (s2, p2, _)) =>
+          match ev' f at_ la (PPlus a) s2 p2 with
+          | Some (Some (s3, p3, t3)) => Some (Some (s3, p3, t1 ++ t3))
+          | Some None => Some (Some (s1, p1, t1))
+          | None => None
+          end
+      | Some None => Some (Some (s1, p1, t1))
+      | None => None
+      end
+  | x => x
+  end.
+Proof. reflexivity. Qed.
+Lemma ev_opt f at_ la a s pos : ev' (S f) at_ la (POpt a) s pos =
+  match ev' f at_ la a s pos with Some None => Some (Some (s, pos, [])) | x => x end.
+Proof. reflexivity. Qed.
+Lemma ev_not f at_ la a s pos : ev' (S f) at_ la (PNot a) s pos =
+  match ev' f at_ true a s pos with Some None => Some (Some (s, pos, [])) | Some (Some _) => Some None | None => None end.
+Proof. reflexivity. Qed.
+Lemma ev_leaf f at_ la e s pos :
+  match e with PLit _ | PRng _ _ | PAny | PSoi | PEoi => True | _ => False end ->
+  ev' (S f) at_ la e s pos = ev' 1 at_ la e s pos.
+Proof. destruct e; intro X; try contradiction; reflexivity. Qed.
+
+(* more fuel never changes an answer *)
+Theorem ev_mono : forall f at_ la e s pos r, ev' f at_ la e s pos = Some r -> ev' (S f) at_ la e s pos = Some r.
+Proof.
+  induction f as [|f IH]; intros at_ la e s pos r H; [discriminate|].
+  assert (IHs : forall at0 la0 s0 p0 r0, skipf f at0 la0 s0 p0 = Some r0 -> skipf (S f) at0 la0 s0 p0 = Some r0).
+  { intros at0 la0 s0 p0 r0. unfold skipf. destruct at0, ws; try (intro X; exact X). apply IH. }
+  destruct e.
+  - rewrite ev_leaf in * by exact I. exact H.
+  - rewrite ev_leaf in * by exact I. exact H.
+  - rewrite ev_leaf in * by exact I. exact H.
+  - rewrite ev_leaf in * by exact I. exact H.
+  - rewrite ev_leaf in * by exact I. exact H.
+  - rewrite ev_ref in *. destruct (nth_error g n) as [r0|]; [|exact H]. cbv zeta in *.
+    destruct (ev' f _ la (r_body r0) s pos) as [x|] eqn:E; [|discriminate]. rewrite (IH _ _ _ _ _ _ E). exact H.
+  - rewrite ev_seq in *.
+    destruct (ev' f at_ la e1 s pos) as [x|] eqn:E1; [|discriminate]. rewrite (IH _ _ _ _ _ _ E1).
+    destruct x as [[[s1 p1] t1]|]; [|exact H].
+    destruct (skipf f at_ la s1 p1) as [y|] eqn:E2; [|discriminate]. rewrite (IHs _ _ _ _ _ E2).
+    destruct y as [[[s2 p2] t2]|]; [|exact H].
+    destruct (ev' f at_ la e2 s2 p2) as [z|] eqn:E3; [|discriminate]. rewrite (IH _ _ _ _ _ _ E3). exact H.
+  - rewrite ev_alt in *.
+    destruct (ev' f at_ la e1 s pos) as [x|] eqn:E1; [|discriminate]. rewrite (IH _ _ _ _ _ _ E1).
+    destruct x; [exact H|]. apply IH. exact H.
+  - rewrite ev_star in *.
+    destruct (ev' f at_ la (PPlus e) s pos) as [x|] eqn:E1; [|discriminate]. rewrite (IH _ _ _ _ _ _ E1). exact H.
+  - rewrite ev_plus in *.
+    destruct (ev' f at_ la e s pos) as [x|] eqn:E1; [|discriminate]. rewrite (IH _ _ _ _ _ _ E1).
+    destruct x as [[[s1 p1] t1]|]; [|exact H].
+    destruct (skipf f at_ la s1 p1) as [y|] eqn:E2; [|discriminate]. rewrite (IHs _ _ _ _ _ E2).
+    destruct y as [[[s2 p2] t2]|]; [|exact H].
+    destruct (ev' f at_ la (PPlus e) s2 p2) as [z|] eqn:E3; [|discriminate]. rewrite (IH _ _ _ _ _ _ E3). exact H.
+  - rewrite ev_opt in *.
+    destruct (ev' f at_ la e s pos) as [x|] eqn:E1; [|discriminate]. rewrite (IH _ _ _ _ _ _ E1). exact H.
+  - rewrite ev_not in *.
+    destruct (ev' f at_ true e s pos) as [x|] eqn:E1; [|discriminate]. rewrite (IH _ _ _ _ _ _ E1). exact H.
+Qed.
+Corollary ev_mono_le f f' at_ la e s pos r : f <= f' -> ev' f at_ la e s pos = Some r -> ev' f' at_ la e s pos = Some r.
+Proof. intros Hle H0. induction Hle as [|m Hm IHm]; [exact H0|]. apply ev_mono. exact IHm. Qed.
+
+(* lookahead mode changes the pairs only: what is matched, and where it ends, is the same *)
+Definition shape (r : option (str * nat * list tok)) : option (str * nat) :=
+  match r with Some (s, p, _) => Some (s, p) | None => None end.
+Theorem ev_la_shape : forall f at_ e s pos r, ev' f at_ true e s pos = Some r ->
+  exists r', ev' f at_ false e s pos = Some r' /\ shape r' = shape r.
+Proof.
+  induction f as [|f IH]; intros at_ e s pos r H; [discriminate|].
+  assert (IHs : forall at0 s0 p0 r0, skipf f at0 true s0 p0 = Some r0 ->
+            exists r', skipf f at0 false s0 p0 = Some r' /\ shape r' = shape r0).
+  { intros at0 s0 p0 r0. unfold skipf. destruct at0, ws; try (intro X; eexists; split; [exact X|reflexivity]). apply IH. }
+  destruct e.
+  - rewrite ev_leaf in * by exact I. eexists; split; [exact H|reflexivity].
+  - rewrite ev_leaf in * by exact I. eexists; split; [exact H|reflexivity].
+  - rewrite ev_leaf in * by exact I. eexists; split; [exact H|reflexivity].
+  - rewrite ev_leaf in * by exact I. eexists; split; [exact H|reflexivity].
+  - cbn [ev] in *. destruct s; inversion H; subst; eexists; split; reflexivity.
+  - rewrite ev_ref in *. destruct (nth_error g n) as [r0|]; [|eexists; split; [exact H|reflexivity]]. cbv zeta in *.
+    destruct (ev' f _ true (r_body r0) s pos) as [x|] eqn:E; [|discriminate].
+    destruct (IH _ _ _ _ _ E) as [x' [E' Sx]]. rewrite E'.
+    destruct x as [[[s1 p1] t1]|], x' as [[[s1' p1'] t1']|]; cbn [shape] in Sx; try discriminate; inversion H; subst.
+    + inversion Sx; subst. eexists; split; reflexivity.
+    + eexists; split; reflexivity.
+  - rewrite ev_seq in *.
+    destruct (ev' f at_ true e1 s pos) as [x|] eqn:E1; [|discriminate].
+    destruct (IH _ _ _ _ _ E1) as [x' [E1' S1]]. rewrite E1'.
+    destruct x as [[[s1 p1] t1]|], x' as [[[s1' p1'] t1']|]; cbn [shape] in S1; try discriminate;
+      [inversion S1; subst|inversion H; subst; eexists; split; reflexivity].
+    destruct (skipf f at_ true s1 p1) as [y|] eqn:E2; [|discriminate].
+    destruct (IHs _ _ _ _ E2) as [y' [E2' S2]]. rewrite E2'.
+    destruct y as [[[s2 p2] t2]|], y' as [[[s2' p2'] t2']|]; cbn [shape] in S2; try discriminate;
+      [inversion S2; subst|inversion H; subst; eexists; split; reflexivity].
+    destruct (ev' f at_ true e2 s2 p2) as [z|] eqn:E3; [|discriminate].
+    destruct (IH _ _ _ _ _ E3) as [z' [E3' S3]]. rewrite E3'.
+    destruct z as [[[s3 p3] t3]|], z' as [[[s3' p3'] t3']|]; cbn [shape] in S3; try discriminate; inversion H; subst;
+      [inversion S3; subst|]; eexists; split; reflexivity.
+  - rewrite ev_alt in *.
+    destruct (ev' f at_ true e1 s pos) as [x|] eqn:E1; [|discriminate].
+    destruct (IH _ _ _ _ _ E1) as [x' [E1' S1]]. rewrite E1'.
+    destruct x as [[[s1 p1] t1]|], x' as [[[s1' p1'] t1']|]; cbn [shape] in S1; try discriminate.
+    + inversion H; subst. eexists; split; [reflexivity|exact S1].
+    + apply IH. exact H.
+  - rewrite ev_star in *.
+    destruct (ev' f at_ true (PPlus e) s pos) as [x|] eqn:E1; [|discriminate].
+    destruct (IH _ _ _ _ _ E1) as [x' [E1' S1]]. rewrite E1'.
+    destruct x as [[[s1 p1] t1]|], x' as [[[s1' p1'] t1']|]; cbn [shape] in S1; try discriminate; inversion H; subst;
+      eexists; split; try reflexivity. exact S1.
+  - rewrite ev_plus in *.
+    destruct (ev' f at_ true e s pos) as [x|] eqn:E1; [|discriminate].
+    destruct (IH _ _ _ _ _ E1) as [x' [E1' S1]]. rewrite E1'.
+    destruct x as [[[s1 p1] t1]|], x' as [[[s1' p1'] t1']|]; cbn [shape] in S1; try discriminate;
+      [inversion S1; subst|inversion H; subst; eexists; split; reflexivity].
+    destruct (skipf f at_ true s1 p1) as [y|] eqn:E2; [|discriminate].
+    destruct (IHs _ _ _ _ E2) as [y' [E2' S2]]. rewrite E2'.
+    destruct y as [[[s2 p2] t2]|], y' as [[[s2' p2'] t2']|]; cbn [shape] in S2; try discriminate;
+      [inversion S2; subst|inversion H; subst; eexists; split; reflexivity].
+    destruct (ev' f at_ true (PPlus e) s2 p2) as [z|] eqn:E3; [|discriminate].
+    destruct (IH _ _ _ _ _ E3) as [z' [E3' S3]]. rewrite E3'.
+    destruct z as [[[s3 p3] t3]|], z' as [[[s3' p3'] t3']|]; cbn [shape] in S3; try discriminate; inversion H; subst;
+      [inversion S3; subst|]; eexists; split; reflexivity.
+  - rewrite ev_opt in *.
+    destruct (ev' f at_ true e s pos) as [x|] eqn:E1; [|discriminate].
+    destruct (IH _ _ _ _ _ E1) as [x' [E1' S1]]. rewrite E1'.
+    destruct x as [[[s1 p1] t1]|], x' as [[[s1' p1'] t1']|]; cbn [shape] in S1; try discriminate; inversion H; subst;
+      eexists; split; try reflexivity. exact S1.
+  - rewrite ev_not in *. eexists; split; [exact H|reflexivity].
+Qed.
+End General.
+
+(* ---- the lax top-level grammar never rejects a text ---- *)
+Ltac rule_of n := let v := eval vm_compute in (nth_error liquid_grammar n) in change (nth_error liquid_grammar n) with v in *.
+Ltac rules := repeat match goal with
+  | |- context [nth_error liquid_grammar ?n] => rule_of n
+  | H : context [nth_error liquid_grammar ?n] |- _ => rule_of n
+  end.
+Definition lax_item : pe := PAlt (PRef r_Element) (PRef r_InvalidLiquid).
+
+Lemma some_none_inv {A} (x : option (option A)) (y : option (option A)) :
+  match x with Some (Some p) => Some (Some p) | Some None => y | None => None end = Some None -> x = Some None /\ y = Some None.
+Proof. destruct x as [[a|]|]; intro H; try discriminate; auto. Qed.
+
+Ltac names := cbv [r_Element r_InvalidLiquid r_Expression r_Tag r_Raw r_LaxLiquidFile lax_item] in *.
+Ltac inner H Hn := match type of H with match ?x with _ => _ end = _ => destruct x as [[[[? ?] ?]|]|] eqn:Hn; try discriminate end.
+
+(* at a non-empty input, (Element | InvalidLiquid) does not fail: what is not an element is an invalid character *)
+Lemma lax_item_never_fails f c s pos : evg f Compound false lax_item (c :: s) pos <> Some None.
+Proof.
+  intro H. names. destruct f as [|f1]; [discriminate|]. rewrite ev_alt in H.
+  apply some_none_inv in H. destruct H as [HE HI].
+  destruct f1 as [|f2]; [discriminate|]. rewrite ev_ref in HE, HI. rules. cbv zeta in HE, HI. cbn [r_mod r_body] in HE, HI.
+  inner HE HEb. inner HI HIb. clear HE HI.
+  destruct f2 as [|f3]; [discriminate|].
+  rewrite ev_alt in HEb. apply some_none_inv in HEb. destruct HEb as [HX _].
+  rewrite ev_seq in HIb.
+  match type of HIb with match ?x with _ => _ end = _ => destruct x as [[[[s1 p1] t1]|]|] eqn:EN; [| |discriminate] end.
+  - (* the lookahead succeeded without consuming: ANY then matches the character *)
+    destruct f3 as [|f4]; [discriminate|]. rewrite ev_not in EN.
+    match type of EN with match ?xx with _ => _ end = _ => destruct xx as [[x|]|]; try discriminate end. inversion EN; subst.
+    unfold skipf in HIb. cbn in HIb. discriminate.
+  - (* the lookahead found an Expression: then Element would have matched it *)
+    destruct f3 as [|f4]; [discriminate|]. rewrite ev_not in EN.
+    match type of EN with match ?xx with _ => _ end = _ => destruct xx as [[x|]|] eqn:EL; try discriminate end.
+    destruct (ev_la_shape _ _ _ _ _ _ _ _ EL) as [r' [E' S']].
+    apply (ev_mono_le _ _ f4 (S f4)) in E'; [|lia]. rewrite HX in E'. inversion E'; subst. destruct x as [[? ?] ?]; discriminate.
+Qed.
+
+Lemma lax_plus_end : forall f s pos r, evg f Compound false (PPlus lax_item) s pos = Some r ->
+  match r with Some (s1, _, _) => s1 = [] | None => s = [] end.
+Proof.
+  induction f as [|f IH]; intros s pos r H; [discriminate|]. rewrite ev_plus in H.
+  destruct (evg f Compound false lax_item s pos) as [[[[s1 p1] t1]|]|] eqn:E1; [| |discriminate].
+  - unfold skipf in H. cbn iota in H.
+    destruct (evg f Compound false (PPlus lax_item) s1 p1) as [[[[s3 p3] t3]|]|] eqn:E3; [| |discriminate].
+    + inversion H; subst. exact (IH _ _ _ E3).
+    + inversion H; subst. exact (IH _ _ _ E3).
+  - inversion H; subst. destruct s as [|c s']; [reflexivity|]. exfalso. exact (lax_item_never_fails _ _ _ _ E1).
+Qed.
+
+(* parse() relies on this: `LiquidParser::parse(Rule::LaxLiquidFile, text).expect(..)` cannot meet a
+   grammar failure — whenever the evaluation finishes, it finishes with a match of the whole text *)
+Lemma ev_soi g ws f at_ la s pos : ev g ws (S f) at_ la PSoi s pos = Some (if Nat.eqb pos 0 then Some (s, pos, []) else None).
+Proof. reflexivity. Qed.
+Lemma ev_eoi_nil g ws f at_ la pos : exists ts, ev g ws (S f) at_ la PEoi [] pos = Some (Some ([], pos, ts)).
+Proof. eexists. reflexivity. Qed.
+Lemma ev_eoi_cons g ws f at_ la c s pos : ev g ws (S f) at_ la PEoi (c :: s) pos = Some None.
+Proof. reflexivity. Qed.
+Theorem lax_never_rejects fuel s : parse liquid_grammar liquid_ws fuel r_LaxLiquidFile s <> Some None.
+Proof.
+  unfold parse. intro H. destruct fuel as [|f1]; [discriminate|]. rewrite ev_ref in H. rules. cbv zeta in H. cbn [r_mod r_body] in H.
+  inner H Hb. clear H. destruct f1 as [|f2]; [discriminate|]. rewrite ev_seq in Hb.
+  destruct f2 as [|f3]; [discriminate|]. rewrite ev_soi in Hb. cbn [Nat.eqb] in Hb. unfold skipf in Hb. cbn iota in Hb.
+  rewrite ev_seq in Hb. change (PAlt (PRef 5) (PRef 4)) with lax_item in Hb.
+  destruct (evg f3 Compound false (PStar lax_item) s 0) as [[[[s1 p1] t1]|]|] eqn:ES; [| |discriminate].
+  - assert (s1 = []) as ->.
+    { destruct f3 as [|f4]; [discriminate|]. rewrite ev_star in ES.
+      destruct (evg f4 Compound false (PPlus lax_item) s 0) as [[[[s2 p2] t2]|]|] eqn:EP; try discriminate.
+      - inversion ES; subst. exact (lax_plus_end _ _ _ _ EP).
+      - inversion ES; subst. exact (lax_plus_end _ _ _ _ EP). }
+    unfold skipf in Hb. cbn iota in Hb. destruct f3 as [|f4]; [discriminate|]. destruct (ev_eoi_nil liquid_grammar liquid_ws f4 Compound false p1) as [ts E]. rewrite E in Hb. discriminate.
+  - destruct f3 as [|f4]; [discriminate|]. rewrite ev_star in ES.
+    destruct (evg f4 Compound false (PPlus lax_item) s 0) as [[[[s2 p2] t2]|]|]; discriminate.
+Qed.
+Lemma seq_eoi_rest f at_ la a s pos rest p t :
+  evg f at_ la (PSeq a PEoi) s pos = Some (Some (rest, p, t)) -> rest = [].
+Proof.
+  destruct f as [|f]; [discriminate|]. rewrite ev_seq.
+  destruct (evg f at_ la a s pos) as [[[[s1 p1] t1]|]|]; try discriminate.
+  destruct (skipf liquid_grammar liquid_ws f at_ la s1 p1) as [[[[s2 p2] t2]|]|]; try discriminate.
+  destruct f as [|f']; [discriminate|]. destruct s2 as [|c s2]; [|rewrite ev_eoi_cons; discriminate].
+  destruct (ev_eoi_nil liquid_grammar liquid_ws f' at_ la p2) as [ts E]. rewrite E. intro H. inversion H. reflexivity.
+Qed.
+Theorem lax_consumes_everything fuel s rest pos ts :
+  parse liquid_grammar liquid_ws fuel r_LaxLiquidFile s = Some (Some (rest, pos, ts)) -> rest = [].
+Proof.
+  unfold parse. intro H. destruct fuel as [|f1]; [discriminate|]. rewrite ev_ref in H. rules. cbv zeta in H. cbn [r_mod r_body] in H.
+  match type of H with match ?x with _ => _ end = _ => destruct x as [[[[s0 p0] t0]|]|] eqn:Hb; try discriminate end.
+  inversion H; subst. clear H.
+  destruct f1 as [|f2]; [discriminate|]. rewrite ev_seq in Hb.
+  match type of Hb with match ?x with _ => _ end = _ => destruct x as [[[[sa pa] ta]|]|]; try discriminate end.
+  unfold skipf in Hb. cbn iota in Hb.
+  match type of Hb with match ?x with _ => _ end = _ => destruct x as [[[[s1 p1] t1]|]|] eqn:E2; try discriminate end.
+  inversion Hb; subst. exact (seq_eoi_rest _ _ _ _ _ _ _ _ _ E2).
+Qed.
